@@ -694,4 +694,72 @@ theorem readline_cut (s : St) (size : Nat) :
     · exact Or.inr (Or.inl h)
     · exact Or.inr (Or.inr (Or.inl h))
 
+/-! ### accounting: what a call returns comes off what can still be delivered -/
+
+/-- bytes that can still be delivered at most: buffered plus undelivered budget -/
+def St.avail (s : St) : Nat := s.buf.length + s.todo
+
+theorem pending_le_avail (s : St) : s.pending.length ≤ s.avail := by
+  unfold St.pending St.avail
+  simp only [List.length_append, List.length_take]
+  omega
+
+theorem fill_avail (s : St) (w : Nat) (hb : s.buf = []) : (s.fill w).avail = s.avail := by
+  unfold St.fill St.avail
+  simp only
+  split
+  · simp [hb]
+  · simp only [under_todo, under_fst, hb, List.length_nil, Nat.zero_add]
+    have h1 := cap_le s (min s.todo w)
+    simp only [List.length_take]
+    omega
+
+theorem prep_avail (s : St) (w : Nat) : (s.prep w).avail = s.avail := by
+  unfold St.prep
+  split
+  · rename_i h; exact fill_avail s w h
+  · rfl
+
+/-- what a call returns comes off what can still be delivered -/
+theorem readlineLoop_avail (size : Nat) (line : Bytes) (s : St) :
+    (readlineLoop size line s).2.avail + (readlineLoop size line s).1.length = s.avail + line.length := by
+  fun_induction readlineLoop size line s with
+  | case1 line s h => rfl
+  | case2 line s h hb => rw [prep_avail]
+  | case3 line s h hb hc =>
+    have := prep_avail s (size - line.length)
+    simp only [St.avail, List.length_append, List.length_cons, List.length_nil, List.length_tail] at this ⊢
+    have hpos : 0 < (s.prep (size - line.length)).buf.length := by
+      cases hbb : (s.prep (size - line.length)).buf with
+      | nil => exact absurd hbb hb
+      | cons a l => simp
+    omega
+  | case4 line s h hb hc p hf =>
+    have := prep_avail s (size - line.length)
+    obtain ⟨f1, f2, f3, f4⟩ := findCRLF_some _ _ _ hf
+    simp only [St.avail, List.length_append, List.length_take, List.length_drop] at this ⊢
+    omega
+  | case5 line s h hb hc hf ih =>
+    rw [ih]
+    have := prep_avail s (size - line.length)
+    simp only [St.avail, List.length_append, List.length_take, List.length_drop] at this ⊢
+    omega
+
+theorem giveBack_avail (sz : Nat) (r : Bytes × St) :
+    (giveBack sz r).2.avail + (giveBack sz r).1.length = r.2.avail + r.1.length := by
+  unfold giveBack
+  split
+  · rename_i h
+    simp only [St.avail, List.length_cons, List.length_dropLast]
+    have := h.2.1
+    omega
+  · rfl
+
+theorem readline_avail (s : St) (size : Nat) :
+    (readline s size).2.avail + (readline s size).1.length = s.avail := by
+  unfold readline
+  rw [giveBack_avail, readlineLoop_avail]
+  simp
+
+
 end Poor.Reader
